@@ -24,6 +24,8 @@ BUILDS_NEW = {'sorted', 'reversed', 'shuffle', 'map', 'filter', 'enumerate', 'ke
               'list', 'dict', 'split', 'match_all', 'match_groups'}
 # language lambdas (source text) and their Python counterparts for direct calls
 LAMBDAS = {
+    'three': ('(a, b, c) => a', lambda a, b=None, c=None: a),
+    'idx': ('r => r[2]', lambda r: r[2]),
     'id': ('v => v', lambda v: v),
     'first2': ('(a, b) => a', lambda a, b: a),
     'true': ('v => True', lambda v: True),
@@ -54,6 +56,9 @@ def shapes():
         'missing': lambda: 'zz',
         'tuples': lambda: [('a', [D(1)]), ('b', [D(2)])],
         'hint': lambda: 1,
+        'idict': lambda: {1: 'one', 2: 'two', 'name': 'n', True: 'yes', None: 'no', 2.5: 'f'},
+        'rows': lambda: [{1: D(1), 'a': [D(1)]}, {2: D(2)}],
+        'short-rows': lambda: [[D(1), D(2), D(3)], [D(4)], [D(5), D(6)]],
     }
 
 
